@@ -158,7 +158,7 @@ def check_tikz(O, S, leafmap, m, evs, labmode, scheme, colid, orient, stubspec=(
         html = defined.get(n["colour"])
         got_multiset[(n["kind"], html)] = got_multiset.get((n["kind"], html), 0) + 1
     if got_multiset != want_multiset:
-        return ("colour_text", f"(kind, colour) counts in the text {sorted(got_multiset.items())}, expected {sorted(want_multiset.items())}")
+        return ("colour_text", f"(kind, colour) counts in the text {sorted(got_multiset.items(), key=str)}, expected {sorted(want_multiset.items(), key=str)}")
     # ---- names and labels
     species_labels = []
     for st in stmts:
